@@ -193,6 +193,15 @@ var checks = []Check{
 		Assumptions: []string{"dqueue/loadbalancer: CyclicReads/instream/WebPages yield unique items/paths/pages so deliveries are attributable (the spec's constants collapse them)", "proxy: PerfectFD (the property's hypothesis), not the PracticalFD the shipped spec instantiates", "replicatedkv has no spec or test in the tree and is not exercised"},
 		MustProbe: []string{"system_dqueue", "system_loadbalancer", "system_proxy", "proxy_backend_crashed", "proxy_reports_failure", "answered_by_later_backend", "dqueue_two_or_more_consumers", "lb_two_servers_two_clients", "system_nestedcrdtimpl", "nested_abort_and_commit", "system_shcounter", "shcounter_three_or_more", "system_gcounter", "gcounter_all_finished", "system_shopcart", "shopcart_last_writer_checked"}, MinRunsForProbes: 3000,
 	},
+	{
+		ID: "C18", Pkg: "checks/c18", Instr: coreInstr, Env: []string{"PGO_TRACE_DIR=@SCRATCH"},
+		QuickRuns: 30000, ThoroughRuns: 1500000, QuickBudgetS: 60, ThoroughBudgetS: 1200, ShrinkS: 45,
+		Rule: "one run = 2-4 archetypes on the real runtime with tracing and vector clocks on (PGO_TRACE_DIR set at process start), each with a scalar local, a function-valued local, a TCP mailbox (simulated network), Go-channel links to higher-numbered peers (OutputChan -> InputChan) and 0-2 shared variables (LocalSharedManager); drawn programs of 1-4 sections x 1-5 operations (read/assign/increment the scalar, chained assignments, indexed writes and reads, whole-function reads, channel and mailbox sends and receives, shared-variable reads and writes), attempts aborting at drawn positions 1-2 times, read and lock time-outs; every sent value is unique. The trace is taken from the in-memory recorder (2/3 of the runs) or parsed from the JSON files the runtime writes under PGO_TRACE_DIR (1/3). Oracles: one event per attempt in program order with the outcome the resources saw (a spy resource's Commit/Abort), exactly the reads and writes the body performed with their indices and values, previous-value hints of locals (including pc) equal to the value just before the write, replaying the logged writes of committed events reproduces every logged read of local state, own clock component = ordinal of the event, clocks never go back, and the clock of every attempt that read a value sent or written by another archetype's attempt dominates that attempt's logged clock; non-trivial = at least 4 attempts; distinct = distinct interleaving digests",
+		Real:        realU,
+		Stub:        append([]string{"archetypes: harness-built jump tables calling the interface as generated code does (Read/Write/Goto, RequireArchetypeResourceRef)", "a spy resource (constant value) reporting Commit/Abort to the harness"}, stubU...),
+		Assumptions: []string{"calm network (time-outs far above latency) so that mailbox reconnects (C06 known findings) do not occur", "channel and mailbox links go from lower to higher archetype ids (no wait cycles); shared variables in every direction", "the Done pseudo-label logs no event"},
+		MustProbe:   []string{"trace_from_json_files", "trace_from_recorder", "aborted_attempt_logged", "reads_from_checked", "indexed_local_write", "foreign_value_read_after_send_in_same_attempt", "read_timeout_or_lock_timeout"}, MinRunsForProbes: 1000,
+	},
 }
 
 func findCheck(id string) *Check {
